@@ -297,6 +297,7 @@ fn run_with(cx: &Cx, range_w: u32, f: &(dyn Fn(&Case, &mut Acc) -> Check + Sync)
     let n = cx.tier.pick(1u64, 25u64);
     acc.merge(par_proptest(cx, "random", 200_000 * n, case_strategy(range_w), |c, acc| f(c, acc)));
     acc.merge(par_proptest(cx, "methods-and-errors", 30_000 * n, method_strategy, |c, acc| f(c, acc)));
+    acc.merge(par_proptest(cx, "multipart-small-parts", 40_000 * n, crate::props::c06::case_strategy, |c, acc| f(c, acc)));
     acc
 }
 
